@@ -5,9 +5,9 @@ CONSTANTS
   BHigh = 0
   MaxLen = 0
   NPorts = {0}
-  Classes = {"discover", "object", "number", "string", "list", "null", "bool", "badutf8", "badjson", "empty", "oversized", "discover_extra", "oversized_discover"}
+  Classes = {"discover", "object", "number", "string", "list", "null", "bool", "badutf8", "badjson", "empty", "oversized", "deep", "oversized_deep", "discover_extra", "oversized_discover"}
   Loose = {"discover_extra", "oversized_discover"}
-  Contained = {"discover", "object", "number", "string", "list", "null", "bool", "badutf8", "badjson", "empty", "oversized", "discover_extra", "oversized_discover"}
+  Contained = {"discover", "object", "number", "string", "list", "null", "bool", "badutf8", "badjson", "empty", "oversized", "deep", "oversized_deep", "discover_extra", "oversized_discover"}
   DisableRule = "identity"
   AnnounceRule = "enabled"
 CONSTRAINT Track
